@@ -6,7 +6,7 @@
 From Coq Require Import List NArith Bool.
 Import ListNotations.
 From Mos Require Import model.Utf model.Nom Gen.ParserTables model.Parser model.Display spec.Lossless spec.LayoutEquiv
-  proofs.NomProofs proofs.TriviaProofs proofs.C08Proofs proofs.C08Sweep proofs.ParserBlind.
+  proofs.NomProofs proofs.TriviaProofs proofs.C08Proofs proofs.C08Sweep proofs.ParserBlind proofs.ParserLayout.
 Open Scope N_scope.
 
 (* A single-line trivia slot: whatever the trivia parser consumes in front of x (tr or tr'), the wrapped parser sees x;
@@ -79,15 +79,55 @@ Theorem C08_position_blind : blind2 Rtok statement.
 Proof. exact statement_blind. Qed.
 Print Assumptions C08_position_blind.
 
+(* Statement level, ALL slots at once, arbitrary legal trivia, all 20 statement forms (blocks included, any nesting).
+   `lay 2 z z'` (proofs/ParserLayout.v) relates two texts that consist of the same characters with trivia at the same
+   places: character by character equal (no blank, tab, CR, LF or double quote among them; a `/` is not followed by
+   `/` or `*`), and at any place both texts may carry trivia instead -- ANY texts from which the model's own trivia
+   parsers behave alike: both start with blank/tab/`/`, the single-line trivia parser leads from them to texts related
+   at level 1 and the multi-line trivia parser to texts related at level 0 (in every state, at every offset, silently),
+   or both start with CR/LF and the multi-line trivia parser leads to texts related at level 0.  Trivia are therefore
+   replaced by other trivia (blanks by tabs or comments, LF by CRLF, empty lines added, line comment by block comment),
+   not inserted between two characters that touch nor removed entirely.
+   `lay2 2 Rtok statement`: (i) diagnostics never disappear; (ii) run on two such texts from silent states (no
+   diagnostics so far, same scope counter and nesting depth), at any offsets, the statement parser either reports in
+   BOTH runs, or stays silent in both and returns tokens of EQUAL SKELETON (or fails / aborts alike), the remaining
+   texts again related, and both runs consumed something or both consumed nothing.
+   What the statement does not cover: string literals (a double quote is not among the common characters, so `.text`,
+   `.file`, `.import .. from "f"`, assert messages with a string do not occur), insertion or removal of trivia between
+   touching tokens (`a+b` against `a + b`), single-line trivia in front of a line break in one text only
+   (`nop // c<LF>` against `nop<LF>`), the letter case of keywords, and texts that produce diagnostics (error tokens
+   contain the trivia inside them, so there the skeletons differ legitimately; the theorem only says both runs report). *)
+Theorem C08_layout_inner : lay2 2 Rtok statement.
+Proof. exact statement_lay. Qed.
+Print Assumptions C08_layout_inner.
+
+(* the same for an expression on its own *)
+Theorem C08_layout_expression : lay2 2 (Rloc Rexp) expression.
+Proof. exact expression_lay. Qed.
+Print Assumptions C08_layout_expression.
+
+(* Whole files: two layouts of the same characters (all trivia of the file varied at once).  If the first parses
+   without diagnostics, then so does the second, and the two token lists have the same skeleton. *)
+Theorem C08_layout_file : forall s1 s2 toks1, lay 2 s1 s2 -> parse s1 = Parsed toks1 [] ->
+  exists toks2, parse s2 = Parsed toks2 [] /\ skeleton toks1 = skeleton toks2.
+Proof. exact layout_file. Qed.
+Print Assumptions C08_layout_file.
+
+(* fuel: the expression parser gives related results on the same text whatever (sufficient) fuel it is run with *)
+Theorem C08_expression_fuel_independent : forall n f f', (n < f)%nat -> (n < f')%nat ->
+  blindh n (Rloc Rexp) (expression_fuel f) (expression_fuel f').
+Proof. exact expression_fuel_blindh. Qed.
+Print Assumptions C08_expression_fuel_independent.
+
 (* Statement level, inner slots, PARTIAL: proved by exhaustive evaluation over a finite domain (bound = the lists below), not for
    arbitrary trivia.  For every template -- one per statement form of the grammar plus three instruction shapes for
    every mnemonic of the translated tables -- replacing ONE slot by each sample trivia (7 single-line: blanks, tabs,
    empty / nested / code-containing block comments, a block comment with a line end; for multi-line slots also LF, CRLF,
    empty and non-empty line comments), re-casing ONE keyword (upper, alternating), and applying one sample to ALL slots
    at once gives a parse without diagnostics and the SAME skeleton as the canonical single-space layout.
-   Missing for the full C08_layout: arbitrary legal trivia at the INNER slots (terminals insensitive to blank vs
-   comment-opener lookahead under the separator condition) and the letter case of keywords at statement level beyond the
-   sweep; covered by the correspondence check and the metamorphic oracle on generated layouts. *)
+   Kept beside C08_layout_inner / C08_layout_file because it covers what those do not: string literals, removal and
+   insertion of trivia at the sampled slots, and the letter case of keywords -- on the finite domain only.  Beyond the
+   domain these three are covered by the correspondence check and the metamorphic oracle on generated layouts. *)
 Theorem C08_layout_bounded_partial : forall tpl, In tpl templates ->
   exists k, skel_parse (canon tpl) = Some k /\ forall v, In v (variants tpl) -> skel_parse v = Some k.
 Proof. exact layout_bounded. Qed.
@@ -112,3 +152,9 @@ Example C08_leading_examples :
   leading [47; 42; 32; 97; 32; 47; 42; 32; 98; 32; 42; 47; 32; 42; 47; 13; 10] [108; 100; 97; 32; 35; 49] /\
   leading [] [108; 100; 97; 32; 35; 49].
 Proof. repeat split; intros st o; vm_compute; eexists; eexists; split; reflexivity. Qed.
+(* two layouts of `lda #1 + x // c<LF>rts`: blanks against tabs and block comments, a line comment against a block
+   comment, LF against CRLF and an empty line with an indented next statement *)
+Example C08_layout_example :
+  lay 2 [108; 100; 97; 32; 35; 49; 32; 43; 32; 120; 32; 47; 47; 32; 99; 10; 114; 116; 115]
+        [108; 100; 97; 9; 35; 49; 32; 47; 42; 99; 42; 47; 32; 43; 32; 32; 120; 32; 47; 42; 100; 42; 47; 13; 10; 13; 10; 32; 114; 116; 115].
+Proof. exact layout_example. Qed.
